@@ -45,6 +45,8 @@ struct Node { var link[2]; int64_t id; int64_t canary; };
 #define NODE_CANARY 0x6e6f6465636f6f6cLL
 static long long fin_ids[MAXID]; static size_t nfin;
 static long long fin_count[MAXID];
+extern var Node;
+static long long anode_fin, anode_dealloc;        /* every finalised arena object is also handed back to its own deallocator */
 static void Node_New(var self, var args) { struct Node* n = self; n->id = c_int(get(args, $I(0))); n->canary = NODE_CANARY; n->link[0] = n->link[1] = NULL; }
 static void Node_Del(var self) {
   struct Node* n = self;
@@ -52,6 +54,7 @@ static void Node_Del(var self) {
   if (nfin < MAXID && id < 1000) fin_ids[nfin++] = id;      /* bulk / cycle Nodes (ids >= 1000) are counted, not listed */
   if (id > 0) fin_count[id]++;
   n->canary = 0;
+  if (type_of(self) != Node) anode_fin++;
 }
 var Node = Cello(Node, Instance(New, Node_New, Node_Del));
 
@@ -67,7 +70,7 @@ static var ANode_Alloc(void) {
   memset(h, 0, 64);
   return header_init(h, ANode, AllocHeap);
 }
-static void ANode_Dealloc(var self) { memset((char*)self - sizeof(struct Header), 0xdd, 64); }
+static void ANode_Dealloc(var self) { anode_dealloc++; memset((char*)self - sizeof(struct Header), 0xdd, 64); }
 var ANode = Cello(ANode, Instance(New, Node_New, Node_Del), Instance(Alloc, ANode_Alloc, ANode_Dealloc));
 
 /* ------------------------------------------------------------------ observation */
@@ -267,6 +270,7 @@ static void __attribute__((destructor)) after_exit(void) {
   long bulknever = 0, bulktwice = 0;
   for (long i = 0; i < bulkn; i++) { if (fin_count[1000 + i] == 0) bulknever++; if (fin_count[1000 + i] > 1) bulktwice++; }
   ev_ints("never", never, nn); ev_ints("twice", twice, nt); ev_int("bulknever", bulknever); ev_int("bulktwice", bulktwice);
+  ev_int("ownfin", anode_fin); ev_int("owndealloc", anode_dealloc);
   ev_end(); ev_flush();
 }
 
@@ -414,7 +418,7 @@ static int __attribute__((noinline)) real_main(int argc, char** argv) {
     } else { fprintf(stderr, "unknown op %s at line %ld\n", hc_w[0], (long)cur_line); return 9; }
     ev_flush();
   }
-  alarm(0);
+  alarm(45);       /* teardown (the collector finalising what is left) is part of the execution: it may not hang either */
   for (int i = 0; i < 32; i++) ROOTSLOT(i) = NULL;
   ev_begin("end"); ev_int("line", cur_line); ev_end();
   ev_flush();
